@@ -162,7 +162,14 @@ fn derived_event(sp: &MSpec, rep: usize, rng: &mut Rng) -> Value {
     let mut solvents: Vec<(Vec<usize>, Vec<f64>)> = (0..n).map(|j| (vec![j], vec![1.0])).collect();
     if n >= 3 { solvents.push((vec![0, 1], vec![0.4, 0.6])); solvents.push((vec![n - 1, 0], vec![0.7, 0.3])); }
     let mut hs = vec![];
+    // a mixed solvent is used only where each of its components has a vapor pressure at T: with a (far) supercritical "solvent" component the bubble point of
+    // the solvent is ill-conditioned and its convergence depends on starting values, which is not what C09 is about
+    let subcritical: Vec<bool> = (0..n).map(|i| {
+        let pure = Arc::new(sp.subset(&[i]).build());
+        PhaseEquilibrium::pure(&pure, t, None, SolverOptions::default()).is_ok()
+    }).collect();
     for (sv, xs) in solvents {
+        if sv.len() > 1 && sv.iter().any(|&i| !subcritical[i]) { continue; }
         let mut sorted: Vec<(usize, f64)> = sv.iter().cloned().zip(xs.iter().cloned()).collect();
         sorted.sort_by_key(|a| a.0);
         let mut mf = vec![0.0; n];
